@@ -31,7 +31,8 @@ place
 echo "== demo on patched tree" >> $LOG
 bash -c "$CMD" >> $LOG 2>&1; B=$?
 # remove demo files, keep patch
-git stash -q 2>/dev/null; git clean -fdq; git stash pop -q 2>/dev/null; rm -rf SEED
+# (no git stash here: the stash is shared by all worktrees of a repository, so concurrent runs swapped patches)
+git clean -fdq -e SEED; git apply -R --check SEED/patch.diff 2>/dev/null || git apply SEED/patch.diff; rm -rf SEED
 echo "== full suite on patched tree" >> $LOG
 go build ./... >> $LOG 2>&1; C0=$?
 go test -vet=off -count=1 ./... > $DST/suite.log 2>&1; C=$?
